@@ -1,4 +1,4 @@
-import Proofs.DirectionStrict
+import Proofs.DirectionFail
 
 /-!
 # C05 — Searches maximise the objective(s)
@@ -444,6 +444,32 @@ theorem C05_scale_minmax_partial (s : Strategy) (w : Vec) (told : List Vec) (lam
   rw [mooTargets_eq, mooTargets_eq]
   simp only [applyScaler, scaleMinMax_smul hl told hst]
 
+/-! ## failed evaluations -/
+
+/-- **C05 (failures are never preferred).**  CBO's `filter_failures ∈ {"min", "mean"}` (mapped
+to the optimizer's `"max"` / `"mean"` because the objectives are negated): in the targets the
+surrogate is fitted on, successes keep their value and every failed configuration gets a value
+that is at least the value of some successful observation — so the smallest target, i.e. what
+an exploitation-only acquisition proposes, is always attained at a successful configuration. -/
+theorem C05_failures_not_preferred (userMode : String) (hu : userMode = "min" ∨ userMode = "mean")
+    (mf : Nat) (yi out : List (Option Rat)) (hsucc : ∃ r, some r ∈ yi)
+    (h : filterFailures (mapFilterFailures userMode) mf yi = .ok out) :
+    out.length = yi.length ∧
+    ∀ (i : Nat) (v : Rat), yi[i]? = some none → out[i]? = some (some v) →
+      ∃ (j : Nat) (r : Rat), yi[j]? = some (some r) ∧ out[j]? = some (some r) ∧ r ≤ v := by
+  have hm : mapFilterFailures userMode = "max" ∨ mapFilterFailures userMode = "mean" := by
+    rcases hu with rfl | rfl
+    · left; decide
+    · right; decide
+  obtain ⟨hlen, hall⟩ := filterFailures_imputed _ hm mf yi out hsucc h
+  refine ⟨hlen, ?_⟩
+  intro i v hnone hout
+  obtain ⟨v', r, hv', hr, hle⟩ := (hall i).2 hnone
+  rw [hv'] at hout
+  simp only [Option.some.injEq] at hout; subst hout
+  rcases List.mem_iff_getElem?.1 hr with ⟨j, hj⟩
+  exact ⟨j, r, hj, (hall j).1 r hj, hle⟩
+
 /-! ## non-vacuity and regression witnesses
 
 History of four candidates with scores `0,1,2,3`, two objectives `score + 100` and
@@ -494,6 +520,15 @@ example : ChosenIsBest [5, 7, 6] [0, 1, 2, 1] 1 :=
   C05_single .minmax (Or.inr rfl) [5, 7, 6] [1, 0, 1/2] (by decide +kernel) [0, 1, 2, 1] 1
     ⟨[1, 0, 1/2, 0], [0, 0, 0, 0], by decide +kernel, rfl, by decide +kernel⟩
 example : Strategy.monotone (.augChebyshev (1/1000)) = true := rfl
+/-- a history with a failure: successes `-3, -1` (objectives 3, 1), `"min"` imputes the worst value -/
+example : filterFailures (mapFilterFailures "min") 100 [some (-3), none, some (-1)] = .ok [some (-3), some (-1), some (-1)] ∧
+    filterFailures (mapFilterFailures "mean") 100 [some (-3), none, some (-1)] = .ok [some (-3), some (-2), some (-1)] := by
+  decide +kernel
+example : fitTargets false .identity .chebyshev [1/2, 1/2] "min" 100
+    [some [-100, -5], none, some [-102, -9], some [-103, -11]] = .ok [3, 3, 1, 0] := by decide +kernel
+/-- if the name map were dropped (`"min"` reaching the optimizer unmapped) the failure string would
+reach the estimator: the model flags it -/
+example : filterFailures "min" 100 [some (-3), none] = .ok [some (-3), none] := by decide +kernel
 example : RowMono exTold exTold := rowMono_identity _
 example : ∀ r ∈ exTold, r.length = ([200, 200] : Vec).length := by decide +kernel
 example : colMin exTold = some [-103, -11] ∧ colMax exTold = some [-100, -5] ∧
